@@ -1,6 +1,7 @@
 package scen
 
 import (
+	gogotypes "github.com/cosmos/gogoproto/types"
 	"strings"
 	"time"
 
@@ -90,6 +91,11 @@ func Boundary() Spec {
 		fix(Msg("RemoveAllowedBridgeChain(polygon)", &basetypes.MsgRemoveAllowedBridgeChain{Authority: g, ChainName: "polygon"})),
 		fix(Msg("basket.Create(A,criteria=window)", &baskettypes.MsgCreate{Curator: A.String(), Name: "WIN", CreditTypeAbbrev: "C", AllowedClasses: []string{"C01", "C02"},
 			DateCriteria: &baskettypes.DateCriteria{StartDateWindow: gdur(24 * time.Hour)}, Fee: sdk.NewCoins(coin("uregen", 10)), Description: strings.Repeat("d", 256)})),
+		// timestamps / durations whose nanos field is outside 0..999999999 (not a valid protobuf value)
+		fix(Msg("basket.Create(A,criteria=min-date-with-nanos-2e9)", &baskettypes.MsgCreate{Curator: A.String(), Name: "NAN", CreditTypeAbbrev: "C", AllowedClasses: []string{"C01"},
+			DateCriteria: &baskettypes.DateCriteria{MinStartDate: &gogotypes.Timestamp{Seconds: 1577836800, Nanos: 2000000000}}, Fee: sdk.NewCoins(coin("uregen", 10))})),
+		fix(Msg("UpdateDateCriteria(NCT,window-with-nanos-2e9)", &baskettypes.MsgUpdateDateCriteria{Authority: g, Denom: NCT, NewDateCriteria: &baskettypes.DateCriteria{StartDateWindow: &gogotypes.Duration{Seconds: 86400, Nanos: 2000000000}}})),
+		fix(Msg("UpdateDateCriteria(NCT,min-date-with-negative-nanos)", &baskettypes.MsgUpdateDateCriteria{Authority: g, Denom: NCT, NewDateCriteria: &baskettypes.DateCriteria{MinStartDate: &gogotypes.Timestamp{Seconds: 1577836800, Nanos: -1}}})),
 		fix(Msg("UpdateDateCriteria(NCT,min=1900-01-01)", &baskettypes.MsgUpdateDateCriteria{Authority: g, Denom: NCT, NewDateCriteria: &baskettypes.DateCriteria{MinStartDate: gts(date(1900, 1, 1))}})),
 		fix(Msg("UpdateDateCriteria(NCT,years=100)", &baskettypes.MsgUpdateDateCriteria{Authority: g, Denom: NCT, NewDateCriteria: &baskettypes.DateCriteria{YearsInThePast: 100}})),
 		fix(BridgeReceive(A, "C01", "VCS-1", C, "0.000001", epoch, epoch, &basetypes.OriginTx{Id: TxHash(3), Source: "Polygon", Contract: Contract1})),
